@@ -357,6 +357,16 @@ func runC15(c *fw.Case) {
 				// must not touch the existing link either
 				variants := []string{strings.ToUpper(key), key + " ", " " + key, strings.ToUpper(key[:1]) + key[1:], key + "\x00", key[:len(key)-1]}
 				publish(variants[c.R.Intn(len(variants))], "variant-value")
+				// keys derived from an existing key the way the module derives keys from ids
+				// (hex sha256) are separate entries: what is stored under them is no licence
+				// to replace the original
+				repl := links[key] + "-replacement"
+				hk := sha256.Sum256([]byte(key))
+				publish(hex.EncodeToString(hk[:]), repl)
+				publish(key, repl)
+				hv := sha256.Sum256([]byte(links[key]))
+				publish(hex.EncodeToString(hv[:]), repl)
+				publish(key, repl)
 				break
 			}
 			checkLinks("after overwrite attempt")
